@@ -11,6 +11,7 @@ import Proofs.XdrBasic
 import Proofs.XdrEnc
 import Proofs.XdrDec
 import Proofs.XdrSize
+import Proofs.XdrPrefix
 namespace Pydap.C05
 open Pydap Pydap.Xdr
 
@@ -64,6 +65,21 @@ theorem C05_decoder_total (t : Tmpl) (d : Data) (rest : Bytes) (h : WF t d = tru
     decImpl t (XdrSpec.enc t d ++ rest) = .ok (d, rest) :=
   decImpl_enc t d rest h
 
+/-- **the decoder reads strictly, and only what it consumes matters**: on *any* stream (conforming or
+    not), a successful decode is unchanged when bytes are appended — the values are the same and the
+    appended bytes are left unread (every `BytesReader.read` either delivers its `n` bytes or raises;
+    no decision depends on what lies beyond the consumed bytes, nor on the fuel) -/
+theorem C05_decoder_prefix_stable (t : Tmpl) (s q : Bytes) (d : Data) (r : Bytes)
+    (h : decImpl t s = .ok (d, r)) : decImpl t (s ++ q) = .ok (d, r ++ q) :=
+  decImpl_ext t s q d r h
+
+/-- **a truncated response never decodes**: no proper prefix of a conforming stream is accepted (with
+    the strict reader of fix 72d8e7c some `read` meets the end of the data; before it, a stream cut at a
+    record boundary or inside a string decoded to fewer rows / shorter strings) -/
+theorem C05_truncated_rejected (t : Tmpl) (d : Data) (p q : Bytes) (h : WF t d = true)
+    (he : XdrSpec.enc t d = p ++ q) (hq : q ≠ []) (x : Data × Bytes) : decImpl t p ≠ .ok x :=
+  decImpl_prefix t d p q h he hq x
+
 /-- **Content-Length**: whenever `calculate_size` announces a length it is the length of the body
     (DDS ‖ `Data:\n` ‖ XDR) for every value of the declaration -/
 theorem C05_content_length (dds : Bytes) (t : Tmpl) (d : Data) (n : Nat) (h : WF t d = true)
@@ -111,6 +127,20 @@ example : WF exT exD = true := by decide
 example : (XdrSpec.enc exT exD).length = 104 := by decide
 example : calcSize [32, 10] (.struct [.base .byte [3], .base .int16 [], .base .float64 [2, 2]]) = some 64 := by
   decide
+/-- truncated streams: cut at a record boundary (before the end marker), inside a string, and the
+    whole stream -/
+def exS : Tmpl := .struct [.seq [.base .int32 [], .base .string []]]
+def exSD : Data := .tuple [.rows [.tuple [.scalar (.num 5), .scalar (.str [97])]]]
+def isShort : Except Err (Data × Bytes) → Bool
+  | .error .short => true
+  | _ => false
+example : WF exS exSD = true ∧ (XdrSpec.enc exS exSD).length = 20 := by decide
+example : isShort (decImpl exS ((XdrSpec.enc exS exSD).take 16)) = true := by decide
+example : isShort (decImpl exS ((XdrSpec.enc exS exSD).take 13)) = true := by decide
+example : isShort (decImpl exS ((XdrSpec.enc exS exSD).take 20)) = false := by decide
+example : ∀ x, decImpl exS ((XdrSpec.enc exS exSD).take 16) ≠ .ok x :=
+  C05_truncated_rejected exS exSD _ ((XdrSpec.enc exS exSD).drop 16) (by decide)
+    (List.take_append_drop 16 _).symm (by decide)
 example : ∃ dds0, ∀ i, i < dds0.length →
     ¬ splitPattern.isPrefixOf ((dds0 ++ splitPattern ++ encImpl exT exD).drop i) = true :=
   ⟨[32], by decide⟩
